@@ -1,3 +1,4 @@
+import Gtree.Lemmas.EntryFacts
 import Gtree.Lemmas.SourceRefines
 import Gtree.Lemmas.Output
 import Gtree.Lemmas.PathLex
@@ -129,4 +130,14 @@ theorem C05_walker_node_is_the_source (v : Visit) (hroot : v.level = 1 → v.pat
     Src.WalkerNode.Path ⟨visitNode v⟩ = v.path ∧
     Src.WalkerNode.Row ⟨visitNode v⟩ = v.row :=
   walkerNode_src v hroot
+end Gtree
+
+namespace Gtree
+/-- Fact regenerated from the sources on this run: every Walk entry point, under both of its names and in the iterator form, builds its configuration with `newConfigWithoutEncode`: an encoding option does not select the no-op grower, so Row, Branch and Path are computed. -/
+theorem C05_facts_entry_points_configuration : Facts.entryConfig = expectedEntryConfig := entryConfig_as_expected
+
+/-- Fact regenerated from the sources on this run: every deprecated alias (`Output`, `Mkdir`, `Verify`, `Walk`,
+    `OutputProgrammably`, `MkdirProgrammably`, `VerifyProgrammably`, `WalkProgrammably`, `WalkIterProgrammably`) has, word for
+    word, the body of the function that replaces it. -/
+theorem C05_facts_aliases_identical : Facts.aliasBodiesEqual.all (fun e => e.2) = true := aliases_identical
 end Gtree
